@@ -388,6 +388,32 @@ func realiseBase(v J, r *Repr, path, h string) (any, error) {
 				t[k] = s
 			}
 			return t, nil
+		case "struct", "structptr": // a Go struct whose fields carry the keys as `liquid:"key"` tags
+			sort.Strings(keys)
+			fields := make([]reflect.StructField, len(keys))
+			for i, k := range keys {
+				if strings.ContainsAny(k, "\"\\`") {
+					return nil, fmt.Errorf("repr struct: key %q", k)
+				}
+				fields[i] = reflect.StructField{Name: fmt.Sprintf("F%d", i), Type: reflect.TypeOf((*any)(nil)).Elem(),
+					Tag: reflect.StructTag(fmt.Sprintf(`liquid:"%s"`, k))}
+			}
+			sv := reflect.New(reflect.StructOf(fields)).Elem()
+			for i, k := range keys {
+				if out[k] != nil {
+					sv.Field(i).Set(reflect.ValueOf(out[k]))
+				}
+			}
+			if h == "structptr" {
+				return sv.Addr().Interface(), nil
+			}
+			return sv.Interface(), nil
+		case "anystrkeys": // the same string keys in a map[any]any, as a YAML decoder produces
+			t := map[any]any{}
+			for k, e := range out {
+				t[k] = e
+			}
+			return t, nil
 		case "intkeys", "anykeys":
 			// the same entries under integer keys (the keys spell integers), as YAML decoders produce
 			ti := map[int]any{}
